@@ -363,6 +363,27 @@ func GenOpsP(rt *rapid.T, model map[string][]byte, used *[]string, n, maxBytes, 
 			}
 			continue
 		}
+		if gen.Chance(rt, 3, label+"_full") {
+			// a complete branch that also holds a value: a key and sixteen longer keys, one under every slot; the
+			// prefix key itself comes last or first, and later operations find all of them among the used paths
+			base := GenFixedPath(rt, gen.Uniform(rt, 1, 2, label+"_fl"), label+"_fb")
+			const hexd = "0123456789abcdef"
+			qs := []string{base}
+			for n := 0; n < 16; n++ {
+				qs = append(qs, base+string(hexd[n])+string(hexd[gen.Uniform(rt, 0, 15, label+"_fr")]))
+			}
+			if gen.Chance(rt, 50, label+"_flast") {
+				qs = append(qs[1:], base)
+			}
+			for _, q := range qs {
+				v := GenValue(rt, label+"_fv")
+				ops = append(ops, Op{Kind: "ins", Path: q, Val: fmt.Sprintf("%x", v)})
+				model[q] = v
+			}
+			// the prefix key twice, so that following updates and removals pick it often
+			*used = append(*used, base, base, qs[3])
+			continue
+		}
 		p := GenPath(rt, *used, maxBytes, label+"_p")
 		v := GenValue(rt, label+"_v")
 		if len(live) > 0 && gen.Chance(rt, 12, label+"_twin") {
